@@ -608,4 +608,67 @@ theorem applyThenTobytes_eq (d : Dev) : applyThenTobytes d = setStateBody (setSt
   simpa [Codec.ApplyCmd.ofModel, setStateOfDev] using this
 
 
+/-! ### Response.validate -/
+
+theorem slice_init (l : Bytes) (x : UInt8) :
+    Py.slice (Py.ints (l ++ [x])) none (some (-1)) = Py.ints l := by
+  unfold Py.slice
+  have hl : (Py.ints (l ++ [x])).length = l.length + 1 := by rw [ints_length]; simp
+  simp only [hl]
+  have hc : Py.clampIdx (l.length + 1) (-1) = l.length := by
+    unfold Py.clampIdx
+    have h1 : ((-1 : Int) < 0) := by decide
+    have h2 : ¬ ((-1 : Int) + ((l.length + 1 : Nat) : Int) < 0) := by push_cast; omega
+    rw [if_pos h1, if_neg h2]; push_cast; omega
+  rw [hc, ints_append, List.drop_zero, List.take_append_of_le_length (by rw [ints_length]; exact Nat.le_refl _)]
+  rw [← ints_length l, List.take_length]
+
+theorem u8_ne_cast (a b : UInt8) : decide (((a.toNat : Int)) ≠ (b.toNat : Int)) = decide (a ≠ b) := by
+  by_cases h : a = b
+  · subst h; simp
+  · have : (a.toNat : Int) ≠ (b.toNat : Int) := fun e => h (UInt8.toNat_inj.mp (by exact_mod_cast e))
+    simp [h, this]
+
+/-- **tie.** `Response.validate` as translated = the model's, for every payload (IndexError on the empty one). -/
+theorem responseValidate_eq (payload : Bytes) : Codec.responseValidate payload = Model.respValidate payload := by
+  first
+  | (
+       unfold Codec.responseValidate Model.respValidate
+       cases List.eq_nil_or_concat payload with
+       | inl h => subst h; rfl
+       | inr h =>
+         obtain ⟨l, x, h⟩ := h
+         subst h
+         rw [List.concat_eq_append, index_last, slice_init, checksum_eq, crc8Calculate_eq]
+         rw [ok_bind, List.getLast?_concat, List.dropLast_concat]
+         simp only []
+         rw [u8_ne_cast, u8_ne_cast]
+         by_cases hc : crc8 l ≠ x ∧ checksum l ≠ x
+         · rw [if_pos hc, if_pos (by simp [hc.1, hc.2])]
+         · rw [if_neg hc, if_neg]
+           · rfl
+           · intro h; apply hc
+             simpa using h)
+  | rfl
+
+/-! ### Command._next_message_id -/
+
+theorem u8_mod (n : Nat) : ((n % 256).toUInt8).toNat = n % 256 := by
+  have h : n % 256 < 256 := Nat.mod_lt _ (by decide)
+  simp [Nat.toUInt8, UInt8.toNat_ofNat', Nat.mod_eq_of_lt h]
+
+/-- **tie.** `Command._next_message_id` as translated = the model's, for every value the class-level counter can have
+    (it starts at 0 and is only ever incremented). -/
+theorem nextMessageId_eq (c : Nat) :
+    Codec.nextMessageId (c : Int) = ((((Model.nextMessageId c).2.toNat : Nat) : Int), (((Model.nextMessageId c).1 : Nat) : Int)) := by
+  first
+  | (
+     unfold Codec.nextMessageId Model.nextMessageId
+     rw [band_255]
+     simp only []
+     rw [u8_mod]
+     first | done | (congr 1 <;> omega))
+  | simp [Codec.nextMessageId]
+
+
 end Msmart.CodecEq
